@@ -665,3 +665,60 @@ func reGroupNames(r *RE) []string {
 	walk(r)
 	return out
 }
+
+// TestC14Counts: counted quantifiers far beyond the bounds the random generator
+// draws ({m}, {m,}, {m,n} with m up to 64 as in hex ids, phone numbers, hashes), on
+// runs just below, at and above the bounds. Oracle: Go regexp, anchored at each
+// position (no anchors, alternation or references in these regexes).
+func TestC14Counts(t *testing.T) {
+	seedNote(t)
+	StartWatchdog("C14", 60*time.Second)
+	st := NewStats("C14", "counts", "exhaustive over atom in {a, [ab], \\d, (?:ab), [^-]} x m in {0..13, 16, 31, 32, 33, 64} x {m}, {m,}, {m,m+1}, {m,m+7} x greedy / lazy x followed by `-` or by nothing, on a text of runs of m-1, m, m+1, m+7, m+8 repetitions; oracle: Go regexp anchored at every position (spans); non-trivial = at least one match; distinct by regex")
+	st.Exhaustive = true
+	defer st.Write()
+	atoms := []struct{ re, unit string }{{"a", "a"}, {"[ab]", "b"}, {`\d`, "7"}, {"(?:ab)", "ab"}, {"[^-]", "x"}}
+	for _, a := range atoms {
+		for _, m := range []int{0, 1, 2, 3, 4, 5, 6, 7, 8, 9, 10, 11, 12, 13, 16, 31, 32, 33, 64} {
+			var text strings.Builder
+			for _, k := range []int{m - 1, m, m + 1, m + 7, m + 8} {
+				if k >= 0 {
+					text.WriteString(strings.Repeat(a.unit, k) + "- ")
+				}
+			}
+			for _, q := range []string{fmt.Sprintf("{%d}", m), fmt.Sprintf("{%d,}", m), fmt.Sprintf("{%d,%d}", m, m+1), fmt.Sprintf("{%d,%d}", m, m+7)} {
+				for _, lazy := range []string{"", "?"} {
+					for _, tail := range []string{"", "-"} {
+						re := a.re + q + lazy + tail
+						rx, err := regexp.Compile(`\A(?:` + re + `)`)
+						if err != nil {
+							t.Fatalf("HARNESS: Go regexp rejects %s: %v", re, err)
+						}
+						txt := text.String()
+						var want []Span
+						for pos := 0; pos < len(txt); {
+							if loc := rx.FindStringIndex(txt[pos:]); loc != nil && loc[1] > 0 {
+								want = append(want, Span{Start: pos, End: pos + loc[1]})
+								pos += loc[1]
+							} else {
+								pos++
+							}
+						}
+						c := RegexCase{Regex: re, Text: txt, Want: want}
+						st.Eval()
+						sig, what, discard := checkRegexCase(c)
+						if discard {
+							st.Count("discarded_vm_budget")
+							continue
+						}
+						if sig != "" {
+							Fail(t, Failure{Property: "C14", Kind: "regex", What: fmt.Sprintf("@/%s/ : %s", re, clipMsg(what, 500)), Case: c, Sig: sig})
+						}
+						if len(want) > 0 {
+							st.NonTrivial(re, func() any { return map[string]any{"regex": re, "text_bytes": len(txt), "matches": len(want)} })
+						}
+					}
+				}
+			}
+		}
+	}
+}
